@@ -54,6 +54,25 @@ static struct sched_param logt_sched_param;
 
 static pthread_t logt_thread_id = 0;
 
+/*
+ * Who is handing queued records to the targets right now (the logging thread,
+ * or a control operation that writes the queue out), under the lock.  A
+ * logger that itself logs comes back into qb_log_thread_log_post() in that
+ * very thread: its message is dropped, as it is without the thread, instead
+ * of waiting for the lock its own thread holds.
+ */
+static pthread_t logt_writer;
+static int32_t logt_writer_set = QB_FALSE;
+
+static void
+_write_record(struct qb_log_record *rec)
+{
+	logt_writer = pthread_self();
+	logt_writer_set = QB_TRUE;
+	qb_log_thread_log_write(rec->cs, &rec->timestamp, rec->buffer);
+	logt_writer_set = QB_FALSE;
+}
+
 static void *qb_logt_worker_thread(void *data) __attribute__ ((noreturn));
 static void *
 qb_logt_worker_thread(void *data)
@@ -103,7 +122,7 @@ retry_sem_wait:
 			printf("%d messages lost\n", dropped);
 		}
 
-		qb_log_thread_log_write(rec->cs, &rec->timestamp, rec->buffer);
+		_write_record(rec);
 
 		(void)qb_thread_unlock(logt_wthread_lock);
 		free(rec->buffer);
@@ -222,7 +241,7 @@ _flush_queue_locked(void)
 		qb_list_del(&rec->list);
 		logt_memory_used = logt_memory_used - strlen(rec->buffer) -
 		    sizeof(struct qb_log_record) - 1;
-		qb_log_thread_log_write(rec->cs, &rec->timestamp, rec->buffer);
+		_write_record(rec);
 		free(rec->buffer);
 		free(rec);
 	}
@@ -281,6 +300,10 @@ qb_log_thread_log_post(struct qb_log_callsite *cs,
 	if (logt_wthread_lock == NULL) {
 		/* the thread is not running, write the message out directly */
 		qb_log_thread_log_write(cs, timestamp, buffer);
+		return;
+	}
+	if (logt_writer_set && pthread_equal(logt_writer, pthread_self())) {
+		/* logged by a logger while it is being run */
 		return;
 	}
 
